@@ -145,13 +145,12 @@ Section WithFacts.
      parse_known_args applies before it sets the parser up *)
   Definition layered (pre cfgf : dmap) : dmap := (cfgf ++ pre)%list.
 
-  (* parse_args(["--help"]); `s` = the outcome of set-up (the *_of forms let one set-up be shared) *)
+  (* parse_args(["--help"]); `s` = the outcome of `setup` on the declared forest (Gen/FactsHelp.v composes the two) *)
   Definition cli_help_of (c : cfg) (pre cfgf : dmap) (s : res (list hwrap)) : helprun :=
     match s with
     | Err e => mkrun e None
     | Ok F' => mkrun (Exit help_status) (Some (if help_stdout then SOut else SErr, help_entries c (layered pre cfgf) F'))
     end.
-  Definition run_cli_help (c : cfg) (pre cfgf : dmap) (F : list hwrap) : helprun := cli_help_of c pre cfgf (setup F).
 
   (* parser.print_help() called directly: returns normally, having printed *)
   Definition api_defaults (pre cfgf : dmap) : dmap := if print_help_applies_config then layered pre cfgf else pre.
@@ -159,7 +158,6 @@ Section WithFacts.
     if print_help_sets_up then
       match s with Err e => Err e | Ok F' => Ok (help_entries c (api_defaults pre cfgf) F') end
     else Ok [].
-  Definition run_api_help (c : cfg) (pre cfgf : dmap) (F : list hwrap) : res (list group) := api_help_of c pre cfgf (setup F).
 
   (* defaults a parse with an empty command line returns for the exposed fields.  Set-up happens once
      (_preprocessing_done) and freezes each action's default; `after_print_help` = print_help() ran before. *)
@@ -172,8 +170,6 @@ Section WithFacts.
     | Ok F' => Ok (defaults_view (if after_print_help && print_help_sets_up then api_defaults pre cfgf
                                   else layered pre cfgf) F')
     end.
-  Definition parse_defaults (after_print_help : bool) (pre cfgf : dmap) (F : list hwrap) :=
-    parse_defaults_of after_print_help pre cfgf (setup F).
 End WithFacts.
 
 (* ---------- the hash-seed oracle rebuilt from observed enumeration orders ---------- *)
